@@ -200,6 +200,16 @@ Definition dep_decide (odep : bool) (bo : order) (lt gt s1 s2 : bool) : order :=
 Definition gen_sub_decide (osub plain : bool) (n1 n2 : nat) (args_ok : bool) : bool :=
   if osub then (if plain then true else if Nat.eqb n1 n2 then args_ok else false) else false.
 
+(* typeorder's block for a generic alias on the left as a decision over the answers of the calls it makes: o2p = the right-hand
+   side is a generic alias too, ot2 = typeorder(o1, t2), oo = typeorder(o1, o2), e1 / e2 = the argument lists are non-empty,
+   n1 / n2 = their lengths, merged = Order.merge of the argument-wise comparisons ([tord_body]: Proofs/LeafDep.v) *)
+Definition gen_order_decide (o2p : bool) (ot2 oo : order) (e1 e2 : bool) (n1 n2 : nat) (merged : order) : order :=
+  if negb o2p then (match ot2 with SAME => LESS | r => r end)
+  else match oo with
+       | SAME => if e1 && negb e2 then LESS else if e2 && negb e1 then MORE else if Nat.eqb n1 n2 then merged else NONE
+       | r => r
+       end.
+
 (* ---------- option helpers (None = out of fuel) ---------- *)
 Definition obind {X Y} (o : option X) (f : X -> option Y) : option Y :=
   match o with None => None | Some x => f x end.
